@@ -10,6 +10,7 @@ from vlib.obs import S, Err, guarded, gz, gbool, glist
 from ref import drive402 as R
 
 PROP = "C19"
+ANCHORS = [('canopen.profiles.p402', 'State402'), ('canopen.profiles.p402', 'OperationMode'), ('canopen.profiles.p402', 'BaseNode402.state'), ('canopen.profiles.p402', 'BaseNode402._next_state'), ('canopen.profiles.p402', 'BaseNode402._change_state'), ('canopen.profiles.p402', 'BaseNode402.op_mode'), ('canopen.profiles.p402', 'BaseNode402.is_op_mode_supported'), ('canopen.profiles.p402', 'BaseNode402.controlword'), ('canopen.profiles.p402', 'BaseNode402.check_statusword'), ('canopen.profiles.p402', 'BaseNode402.statusword')]
 MODEL_VO = ["theories/Model/P402.vo"]
 COQ_IMPORTS = "From CV Require Import Gen.P402Tables Model.RefDrive Model.P402."
 COQ_RUN = "run_p402"
